@@ -170,6 +170,7 @@ def run(prog, rep, tier, cfg):
             X.arg_has('K10', 'constructor:vest-spec', c, 4, ['K:REWARD_VESTING_SPEC'], 'with the reward vesting spec', narrow=False)
     # ---- running totals (amounts, power, datacap) accumulated in loops keep their earlier contributions
     X.accumulator_integrity('K12', 'running-totals', ['fil_actor_miner'], 'running totals of amounts')
+    X.no_dropped_results('K14', 'results-not-discarded', ['fil_actor_miner'], 'no Result of a call is discarded')
 
 
 
